@@ -8,9 +8,26 @@ import fcntl, hashlib, json, os, re, subprocess, sys, time
 
 VERIF = os.path.dirname(os.path.dirname(os.path.abspath(__file__)))     # the /verif tree this file lives in (a vp-run snapshot uses its own)
 os.environ.setdefault('VERIF_ROOT', VERIF)
-REPO = '/repo'
-NODE = '/repo/node'
-TARGET = VERIF + '/target'
+# Developer overrides (used only to run a check against a scratch worktree carrying a seeded change, in parallel with
+# other work; the registered commands never set them): VERIF_REPO, VERIF_TARGET, VERIF_OUT (evidence/ and replay/).
+REPO = os.environ.get('VERIF_REPO', '/repo')
+NODE = REPO + '/node'
+TARGET = os.environ.get('VERIF_TARGET', VERIF + '/target')
+OUT = os.environ.get('VERIF_OUT', VERIF)
+ALT = REPO != '/repo'
+if ALT:
+    # Kani harness crates name /repo in #[path] attributes and path dependencies: work on a copy with the paths rewritten
+    import shutil as _sh
+    _kd = TARGET + '/kani-src'
+    if os.path.isdir(_kd): _sh.rmtree(_kd)
+    _sh.copytree(VERIF + '/kani', _kd, ignore=_sh.ignore_patterns('target', 'gen'))
+    for _r, _d, _f in os.walk(_kd):
+        for _n in _f:
+            if _n.endswith(('.rs', '.toml')):
+                _p = os.path.join(_r, _n); _t = open(_p).read()
+                if '/repo/' in _t: open(_p, 'w').write(_t.replace('/repo/', REPO + '/'))
+    os.environ['VERIF_KANI_DIR'] = _kd
+    os.environ['VERIF_REPO_LOCK'] = NODE + '/Cargo.lock'
 MIR_PREFIX = TARGET + '/mir/out'
 KNOWN = VERIF + '/known_findings.json'
 
@@ -183,8 +200,8 @@ class Report:
         for i, v in enumerate(real):
             if not v.replay_path:
                 # no executable replay for this class of counterexample: the solver witness is kept as a file
-                os.makedirs(VERIF + '/replay', exist_ok=True)
-                v.replay_path = f'{VERIF}/replay/{self.prop.lower()}_{i}.witness.txt'
+                os.makedirs(OUT + '/replay', exist_ok=True)
+                v.replay_path = f'{OUT}/replay/{self.prop.lower()}_{i}.witness.txt'
                 with open(v.replay_path, 'w') as f:
                     f.write(f'property {self.prop}\nviolation {v.key}\n{v.text}\n\nsolver witness (symbolic inputs of the failing path):\n{v.witness or "(in the text above)"}\n')
             print(f'VIOLATION property={self.prop} replay={v.replay_path}')
@@ -222,8 +239,8 @@ class Report:
             assumptions=self.assumptions,
             exit_status=status,
         )
-        os.makedirs(VERIF + '/evidence', exist_ok=True)
-        with open(f'{VERIF}/evidence/{self.prop}.json', 'w') as f:
+        os.makedirs(OUT + '/evidence', exist_ok=True)
+        with open(f'{OUT}/evidence/{self.prop}.json', 'w') as f:
             json.dump(ev, f, indent=1, default=str)
         print(f'{self.prop} [{self.tier}] obligations={n_ob} discharged={n_dis} violations={len(real)} known={len(self.known_hits)} inconclusive={len(self.inconclusive) + len(unrepro)} paths={self.paths} queries={self.queries} solver={self.solver_s:.1f}s wall={wall:.1f}s -> exit {status}')
         return status
